@@ -315,3 +315,75 @@ from . import calibreport as _CR  # noqa: E402
 unit("C10", "report.champions")(_CR.champions_unit)
 unit("C10", "report.best")(_CR.best_unit)
 STANDIN = {r"report\.": _CR.CHAMP_REPLAY}
+
+
+# ---- the declared boundaries are the stored boundaries (ParameterValues.__init__) ------------------------------------------------------
+BOUNDS_REPLAY = lambda w: {"code": """
+import numpy as np
+from pyxel.observation import ParameterValues
+from pyxel.calibration.fitting_datatree import ModelFittingDataTree
+VIOLATED, DETAIL = False, 'each component keeps the boundary pair declared for it'
+for vals, b in (('_', [0.5, 7.0]), (['_', '_', '_'], [[100.0, 1000.0], [10.0, 50.0], [1.0, 2.0]]), (['_', '_'], [[5.0, 6.0], [1.0, 9.0]]), (['_', '_'], [0.0, 1.0])):
+    pv = ParameterValues(key='a.b.c', values=vals, boundaries=b)
+    if not np.array_equal(np.asarray(pv.boundaries, dtype=float), np.asarray(b, dtype=float)):
+        VIOLATED, DETAIL = True, f'declared boundaries {b}, stored {np.asarray(pv.boundaries).tolist()}'; break
+class Fake(ModelFittingDataTree):
+    def __init__(self, variables): self._variables = variables
+lo, hi = Fake([ParameterValues(key='a.b.v', values=['_', '_', '_'], boundaries=[[100.0, 1000.0], [10.0, 50.0], [1.0, 2.0]])])._set_bound()
+if not VIOLATED and (list(lo) != [100.0, 10.0, 1.0] or list(hi) != [1000.0, 50.0, 2.0]):
+    VIOLATED, DETAIL = True, f'box handed to the optimiser: lower {list(lo)} upper {list(hi)}'
+for bad in ([1.0, 2.0, 3.0], [[1.0, 2.0]], [[[1.0, 2.0]]]):
+    try:
+        ParameterValues(key='a.b.c', values=['_', '_'], boundaries=bad); VIOLATED, DETAIL = True, f'boundaries {bad} accepted for two components'
+    except ValueError:
+        pass
+""", "expect": "ParameterValues keeps the declared boundary pairs, component by component"}
+
+
+@unit("C10", "bounds.declared")
+def bounds_declared(u: Unit):
+    """ParameterValues.__init__: the stored boundaries are the declared ones, element by element — one shared (low, high) pair or one pair
+    per component (2 and 3 components, symbolic numbers, in any order); other shapes are refused. (What _set_bound does with them is
+    bounds.layout.)"""
+    fi = u.fn(f"{PVQ}::ParameterValues.__init__")
+    ci = u.cls(f"{PVQ}::ParameterValues")
+    for shape in ("pair", 2, 3, "bad"):
+        cfg = Cfg("real")
+
+        def setup(ex, shape=shape):
+            obj = ex.st.alloc(HObj(ci, {}))
+            ex.self_ref = obj
+            n = 3 if shape == "pair" else (2 if shape == "bad" else shape)
+            vals = ex.st.alloc(HList([VStr("_")] * n))
+            if shape == "pair":
+                ex.b = [VFloat(z3.Real("low")), VFloat(z3.Real("high"))]
+                b = ex.st.alloc(HList(list(ex.b)))
+            elif shape == "bad":
+                ex.b = None
+                b = ex.st.alloc(HList([ex.st.alloc(HList([VFloat(z3.Real("low")), VFloat(z3.Real("high"))]))]))      # one pair for two components
+            else:
+                ex.b = [[VFloat(z3.Real(f"low{i}")), VFloat(z3.Real(f"high{i}"))] for i in range(shape)]
+                b = ex.st.alloc(HList([ex.st.alloc(HList(list(p_))) for p_ in ex.b]))
+            return [obj], {"key": VStr("a.b.c"), "values": vals, "boundaries": b, "logarithmic": VBool(z3.Bool("logarithmic"))}
+        ps = u.paths(fi, setup, cfg, label=f"ParameterValues.__init__[boundaries {shape}]")
+        for p in ps:
+            if shape == "bad":
+                u.oblige(p, "bounds.declared.wrong_shape_refused", p.kind == "raise" and p.exc_name() == "ValueError", {}, BOUNDS_REPLAY)
+                continue
+            if p.kind != "return":
+                u.oblige(p, f"bounds.declared.no_raise[{shape}]", False, {"exc": p.exc_name()}, BOUNDS_REPLAY)
+                continue
+            arr = p.st.cell(p.ex.self_ref).fields.get("_boundaries")
+            if not p.ex.is_arr(arr):
+                u.oblige(p, f"bounds.declared.stored_as_declared[{shape}]", False, {}, BOUNDS_REPLAY)
+                continue
+            c = p.st.cell(arr)
+            if shape == "pair":
+                goal = z3.And(zb(len(c.shape) == 1), to_real(c.elem((0,))) == z3.Real("low"), to_real(c.elem((1,))) == z3.Real("high"))
+            else:
+                goal = z3.And(zb(len(c.shape) == 2), *[z3.And(to_real(c.elem((i, 0))) == z3.Real(f"low{i}"), to_real(c.elem((i, 1))) == z3.Real(f"high{i}")) for i in range(shape)])
+            u.oblige(p, f"bounds.declared.stored_as_declared[{shape}]", goal, {}, BOUNDS_REPLAY)
+        u.cover(f"bounds.declared.cover[{shape}]", ps, lambda p: True)
+
+
+STANDIN[r"bounds\\.declared"] = BOUNDS_REPLAY
